@@ -287,23 +287,31 @@ def load_known():
     return json.load(open(p)).get("findings", [])
 
 
-def shrink_case(mod, case, still_bad, budget=60):
+def shrink_case(mod, case, bad_set, budget_s=None, max_cands=48):
+    """Greedy shrinking; every round evaluates all candidates of the current case in ONE
+    coqc batch (bad_set(cands) -> set of indices that are still bad) under a wall-clock budget."""
     shr = getattr(mod, "shrink", None)
     if not shr:
         return case
+    if budget_s is None:
+        budget_s = float(os.environ.get("VERIF_SHRINK_BUDGET_S", "75"))
+    t_end = time.time() + budget_s
     cur = case
-    while budget > 0:
-        progressed = False
-        for cand in shr(cur):
-            budget -= 1
-            if budget <= 0:
-                break
-            if still_bad(cand):
-                cur = cand
-                progressed = True
-                break
-        if not progressed:
+    while time.time() < t_end:
+        try:
+            cands = []
+            for c in shr(cur):
+                cands.append(c)
+                if len(cands) >= max_cands:
+                    break
+        except Exception:
             break
+        if not cands:
+            break
+        bad = bad_set(cands)
+        if not bad:
+            break
+        cur = cands[min(bad)]
     return cur
 
 
@@ -387,20 +395,22 @@ def main(prop_id, tier="quick", replay=None):
         return None
 
     def case_is_bad(kind):
-        def f(cand):
-            o = run_impl_safe(mod, cand)
-            m2, f2, e2, _ = coq_eval(mod, [(cand, o)], tag="shrink")
+        def f(cands):
+            ps = [(c, run_impl_safe(mod, c)) for c in cands]
+            m2, f2, e2, _ = coq_eval(mod, ps, tag="shrink")
             if e2:
-                return False
-            pf = False
+                return set()
+            pf = set()
             if py_check:
-                try:
-                    pf = not py_check(cand, o)
-                except Exception:
-                    pf = True
+                for j, (c, o) in enumerate(ps):
+                    try:
+                        if not py_check(c, o):
+                            pf.add(j)
+                    except Exception:
+                        pf.add(j)
             if kind == "fail":
-                return bool(f2) or pf
-            return bool(m2)
+                return set(f2) | pf
+            return set(m2)
         return f
 
     reported_sigs = set()
